@@ -42,9 +42,11 @@ def _small(fam, nk, ml, mr, start=0):
 def _random(rng, n):
     for _ in range(n):
         lk, rk = jc.random_keys(rng)
-        yield {"fam": "inner.random", "kind": "inner",
+        spec = {"fam": "inner.random", "kind": "inner",
                "expect": "many_to_many" if rng.random() < 0.85 else rng.choice(jc.EXPECTS),
                "lk": lk, "rk": rk, "v": rng.randrange(NVARIANTS)}
+        # every 5th random case is run 'warm': an earlier join on the same objects, then in-place key edits
+        yield jc.add_warm(rng, spec) if rng.random() < 0.2 else spec
 
 
 def _hashseed(rng, n):
